@@ -7,6 +7,8 @@
 -/
 import VsgProofs.Lemmas.BFull2VSpace
 import VsgProofs.Lemmas.BFull2Affix   -- wp2b_affix
+import VsgProofs.Lemmas.BFull2Below   -- wp2c_vspace
+import VsgProofs.Lemmas.BFull2Above   -- wp2c_vspace
 namespace Vsgm.BFULL2
 open Vsgm Vsgm.TM Vsgm.BFull2.VSpace Vsgm.Base.BlankLine
 
@@ -186,6 +188,156 @@ example :
 end affix
 
 /-! ### END wp2b_affix -/
+
+
+/-! ### BEGIN wp2c_vspace -/
+
+/-! #### blank_line_below_line_ending_with_token (style require_blank_line, no hierarchy limits) — the WHOLE rule on a file
+    of rows (a row = content without line break + its line break; every token list that ends in a line break is one) -/
+
+section below
+open BFull2.Rows
+
+/-- **the line-based bridge**: `lCarriageReturns[k]` of a file of rows is the position of the line break of row `k`
+    (IndexError beyond the last row), and `get_line_number_of_index` of a position inside row `k` is `k + 1` -/
+theorem rows_bridge (uid : Tok → Option Key) (rows : List (Row Tok)) (h : RowsOk uid rows) :
+    (∀ k : Nat, pyIdx ((processTokens uid (join rows)).get (some crKey)) (k : Int) =
+        match rows[k]? with
+        | some r => .ok (offs rows k + r.1.length)
+        | none => .error .indexError) ∧
+    (∀ k j r, rows[k]? = some r → j ≤ r.1.length → TM.Lemmas.lineNo uid (join rows) (offs rows k + j) = k + 1) := by
+  constructor
+  · intro k
+    rw [crs_join uid rows h, pyIdx_crPos]
+    cases rows[k]? <;> simp
+  · intro k j r hk hj
+    exact lineNo_join uid rows h k j r hk hj
+
+/-- get_line_succeeding_line as a row look-up -/
+theorem rows_lineSucceeding (uid : Tok → Option Key) (rows : List (Row Tok)) (h : RowsOk uid rows) (k : Nat) (r : Row Tok)
+    (hk : rows[k]? = some r) :
+    lineSucceeding (join rows) (processTokens uid (join rows)) (k + 1) 1 =
+      .ok (match rows[k + 1]? with
+        | some r' => some { start := some ((offs rows (k + 1) : Nat) : Int), line := k + 2, toks := r'.1 }
+        | none => none) := by
+  rw [lineSucceeding_join uid rows h k r hk]
+  cases rows[k + 1]? <;> rfl
+
+/-- **the analysis is a scan over the rows** with one bit of state (the previous row ends with a listed token): one
+    violation per such row whose successor exists and is neither a blank line nor allowed.  Guards: `CsOk` on `lTokens`,
+    `NoDupRows` — no row with two end-of-line candidates (needs a comment class among `lTokens`; then the real rule
+    DUPLICATES CODE, replayed on the real class) -/
+theorem below_analyze_scan (uid : Tok → Option Key) (inst : Tok → Nat → Bool) (P : Params) (hP : BelowRequire P) (hO : HOracle)
+    (rows : List (Row Tok)) (h : RowsOk uid rows) (hcs : BFull2.CsOk P.cs) (hnd : NoDupRows uid P.cs rows) :
+    (sem uid inst P hO).analyze (join rows) = violsP uid inst P 0 0 false rows :=
+  analyze_scan uid inst P hP hO rows h hcs hnd
+
+/-- **the file after `Rule.fix`**: a row holding one blank-line token in front of every reported row (`RowsFine`: no
+    pseudo tokens, no empty row — on an empty row the real `_fix_violation` raises IndexError, `vspace_below_insert_empty_raises`) -/
+theorem below_fixAll (uid : Tok → Option Key) (inst : Tok → Nat → Bool) (P : Params) (hP : BelowRequire P) (hO : HOracle)
+    (rows : List (Row Tok)) (h : RowsOk uid rows) (hcs : BFull2.CsOk P.cs) (hnd : NoDupRows uid P.cs rows) (hf : RowsFine rows) :
+    fixAll uid inst P hO (join rows) = join (expand uid inst P false rows) :=
+  fixAll_join uid inst P hP hO rows h hcs hnd hf
+
+/-- **C10, whole rule**: after its own fix the rule reports nothing (`NewTokOk`: the created line break has the id of a
+    line break, the created blank line is a `blank_line` instance that is no line break and not among `lTokens`) -/
+theorem below_idem (uid : Tok → Option Key) (inst : Tok → Nat → Bool) (P : Params) (hP : BelowRequire P) (hO : HOracle)
+    (rows : List (Row Tok)) (h : RowsOk uid rows) (hcs : BFull2.CsOk P.cs) (hnd : NoDupRows uid P.cs rows) (hf : RowsFine rows)
+    (hn : NewTokOk uid inst P) :
+    (sem uid inst P hO).analyze (fixAll uid inst P hO (join rows)) = [] :=
+  analyze_fixAll_below uid inst P hP hO rows h hcs hnd hf hn
+
+/-- **C03 / C07, whole rule**: the fix is layout-only and adds EXACTLY one line break per violation -/
+theorem below_effect (uid : Tok → Option Key) (inst : Tok → Nat → Bool) (P : Params) (hP : BelowRequire P) (hO : HOracle)
+    (rows : List (Row Tok)) (h : RowsOk uid rows) (hcs : BFull2.CsOk P.cs) (hnd : NoDupRows uid P.cs rows) (hf : RowsFine rows) :
+    LayoutOnly (join rows) (fixAll uid inst P hO (join rows)) ∧
+    (crSeq (fixAll uid inst P hO (join rows))).length =
+      (crSeq (join rows)).length + ((sem uid inst P hO).analyze (join rows)).length :=
+  fixAll_below_effect uid inst P hP hO rows h hcs hnd hf
+
+/-- non-vacuity: `x ;⏎ y⏎` with `;` listed — one violation on line 1, a blank line is inserted, nothing left -/
+example :
+    let uid : Tok → Option Key := fun t =>
+      if t.cls = 1 then some crKey else if t.cls = 7 then some ("x", "semicolon") else if t.cls = 6 then some blankKey else none
+    let P : Params := { family := .below, cs := [⟨some ("x", "semicolon"), 7⟩], allow := [], style := sRequire, crCls := 1, blCls := 6,
+                        wsCls := 2, commentCls := 13, pragmaCls := 99 }
+    let inst : Tok → Nat → Bool := fun t c => t.cls == c
+    let cr : Tok := ⟨1, .cr, ['\n']⟩
+    let rows : List (Row Tok) := [([⟨9, .code, "x".toList⟩, ⟨7, .code, ";".toList⟩], cr), ([⟨9, .code, "y".toList⟩], cr)]
+    ((sem uid inst P (fun _ => none)).analyze (join rows)).map (fun v => (v.line, v.start)) = [(1, 3)] ∧
+    fixAll uid inst P (fun _ => none) (join rows) =
+      [⟨9, .code, "x".toList⟩, ⟨7, .code, ";".toList⟩, cr, ⟨6, .blank, []⟩, cr, ⟨9, .code, "y".toList⟩, cr] ∧
+    (sem uid inst P (fun _ => none)).analyze (fixAll uid inst P (fun _ => none) (join rows)) = [] := by
+  decide +kernel
+
+end below
+
+/-! #### blank_line_above_line_starting_with_token (style require_blank_line) — the WHOLE rule on a file of rows.  No
+    `NoDupRows` guard here: a row has at most one start-of-line candidate (its first token, or its second after a
+    whitespace token), and no empty-row guard (`_fix_violation` appends) -/
+
+section above
+open BFull2.Rows
+
+/-- get_line_preceding_line (one line, comments not skipped) as a row look-up -/
+theorem rows_linePreceding (uid : Tok → Option Key) (rows : List (Row Tok)) (h : RowsOk uid rows) (k : Nat) (r : Row Tok)
+    (hk : rows[k]? = some r) :
+    linePreceding (join rows) (processTokens uid (join rows)) (k + 2) 1 =
+      .ok { start := some ((offs rows k : Nat) : Int), line := k + 2, toks := r.1 } :=
+  linePreceding_join uid rows h k r hk
+
+/-- **the analysis is a scan over the rows** with one row of lookahead: one violation per row whose successor starts with a
+    listed token and which is neither a blank line nor allowed -/
+theorem above_analyze_scan (uid : Tok → Option Key) (inst : Tok → Nat → Bool) (P : Params) (hP : AboveRequire P) (hO : HOracle)
+    (rows : List (Row Tok)) (h : RowsOk uid rows) (hcs : BFull2.CsOk P.cs) :
+    (sem uid inst P hO).analyze (join rows) = violsA uid inst P 0 2 rows :=
+  analyzeA_scan uid inst P hP hO rows h hcs
+
+/-- **the file after `Rule.fix`**: behind every reported row a new row holding one blank-line token -/
+theorem above_fixAll (uid : Tok → Option Key) (inst : Tok → Nat → Bool) (P : Params) (hP : AboveRequire P) (hO : HOracle)
+    (rows : List (Row Tok)) (h : RowsOk uid rows) (hcs : BFull2.CsOk P.cs) (hb : ∀ r ∈ rows, ∀ t ∈ r.1, t.isBof = false) :
+    fixAll uid inst P hO (join rows) = join (expandA uid inst P rows) :=
+  fixAllA_join uid inst P hP hO rows h hcs hb
+
+/-- **C10, whole rule** -/
+theorem above_idem (uid : Tok → Option Key) (inst : Tok → Nat → Bool) (P : Params) (hP : AboveRequire P) (hO : HOracle)
+    (rows : List (Row Tok)) (h : RowsOk uid rows) (hcs : BFull2.CsOk P.cs) (hb : ∀ r ∈ rows, ∀ t ∈ r.1, t.isBof = false)
+    (hn : NewTokOk uid inst P) :
+    (sem uid inst P hO).analyze (fixAll uid inst P hO (join rows)) = [] :=
+  analyze_fixAll_above uid inst P hP hO rows h hcs hb hn
+
+/-- **C03 / C07, whole rule**: layout-only, exactly one line break more per violation -/
+theorem above_effect (uid : Tok → Option Key) (inst : Tok → Nat → Bool) (P : Params) (hP : AboveRequire P) (hO : HOracle)
+    (rows : List (Row Tok)) (h : RowsOk uid rows) (hcs : BFull2.CsOk P.cs) (hb : ∀ r ∈ rows, ∀ t ∈ r.1, t.isBof = false) :
+    LayoutOnly (join rows) (fixAll uid inst P hO (join rows)) ∧
+    (crSeq (fixAll uid inst P hO (join rows))).length =
+      (crSeq (join rows)).length + ((sem uid inst P hO).analyze (join rows)).length :=
+  fixAll_above_effect uid inst P hP hO rows h hcs hb
+
+/-- non-vacuity: `x⏎ begin⏎` with `begin` listed — one violation on line 2 about line 1, a blank line goes in between -/
+example :
+    let uid : Tok → Option Key := fun t =>
+      if t.cls = 1 then some crKey else if t.cls = 7 then some ("x", "begin") else if t.cls = 6 then some blankKey else none
+    let P : Params := { family := .above, cs := [⟨some ("x", "begin"), 7⟩], allow := [], style := sRequire, crCls := 1, blCls := 6,
+                        wsCls := 2, commentCls := 13, pragmaCls := 99 }
+    let inst : Tok → Nat → Bool := fun t c => t.cls == c
+    let cr : Tok := ⟨1, .cr, ['\n']⟩
+    let rows : List (Row Tok) := [([⟨9, .code, "x".toList⟩], cr), ([⟨7, .code, "begin".toList⟩], cr)]
+    ((sem uid inst P (fun _ => none)).analyze (join rows)).map (fun v => (v.line, v.start)) = [(2, 0)] ∧
+    fixAll uid inst P (fun _ => none) (join rows) =
+      [⟨9, .code, "x".toList⟩, cr, ⟨6, .blank, []⟩, cr, ⟨7, .code, "begin".toList⟩, cr] ∧
+    (sem uid inst P (fun _ => none)).analyze (fixAll uid inst P (fun _ => none) (join rows)) = [] := by
+  decide +kernel
+
+/-- **every token list that is empty or ends with a line break is a file of rows**: the whole-file theorems above cover
+    all such token lists -/
+theorem tokens_are_rows (uid : Tok → Option Key) (f : List Tok) (h : EndsCr uid f) :
+    ∃ rows, RowsOk uid rows ∧ join rows = f :=
+  exists_rows uid f h
+
+end above
+
+/-! ### END wp2c_vspace -/
 
 
 end Vsgm.BFULL2
